@@ -73,6 +73,7 @@ func counterKey(cc *ssa.CallCommon) (string, bool, bool) {
 func runC10(c *Ctx) {
 	c.Rule("C10.PAIR", "every increment is paired with its decrement by one recognised idiom; no orphan decrement", 30)
 	c.Rule("C10.ONCE", "the events the pairings rely on are delivered at most once (stream destroy CAS, connection close CAS, clean CAS)", 4)
+	c.Rule("C10.IDENT", "one counter object per cluster across updates: increments and decrements of one admission hit the same resource manager", 3)
 	c.Rule("C10.OVF", "refused requests leave the books unchanged; CanCreate trips at the threshold", 6)
 	c.NotDecided = append(c.NotDecided, "that every admitted request's lifecycle terminates (needed for 'returns to zero')", "counter values over concrete histories")
 	c.Assumptions = append(c.Assumptions, "stream listeners' OnDestroyStream runs exactly once per stream (BaseStream.DestroyStream CAS, checked by C10.ONCE)", "connection close events are delivered once per established connection (connection.Close CAS, checked by C10.ONCE)")
@@ -139,6 +140,7 @@ func runC10(c *Ctx) {
 	}
 	c10Once(c)
 	c10Overflow(c, sites)
+	c10Identity(c)
 }
 
 // controlEquivalent: a and b execute on exactly the same paths of their function (a before b).
@@ -551,4 +553,79 @@ func guardedByFieldLoadEq(in ssa.Instruction, field string, k int64, want bool) 
 
 func usesField(fn *ssa.Function, field string) bool {
 	return len(fieldAccesses(fn, "", field, true)) > 0
+}
+
+// c10Identity: pools, hosts and retry states created before a cluster update keep the ClusterInfo they were built
+// with; the pairing of an Increase with its Decrease therefore needs the updated cluster to SHARE the old cluster's
+// resource manager object (counters copied into a second manager would be decremented on the wrong one).
+func c10Identity(c *Ctx) {
+	pkg := "pkg/upstream/cluster"
+	fn := c.F(pkg, "UpdateClusterResourceManagerHandler")
+	if fn == nil {
+		c.Unresolved("C10.IDENT", "cluster.UpdateClusterResourceManagerHandler")
+		return
+	}
+	fk := funcKey(fn)
+	// store into (new clusterInfo).resourceManager of the old snapshot's ResourceManager()
+	shared := false
+	for _, st := range storesToField(fn, ".clusterInfo", "resourceManager", false) {
+		call, ok := st.Val.(*ssa.Call)
+		if !ok || methodName(call.Common()) != "ResourceManager" {
+			continue
+		}
+		// the receiver chain must come from the OLD cluster parameter (param 0), the stored-into object from the NEW one (param 1)
+		if rootsAtParam(call.Common().Value, fn.Params[0]) && rootsAtParam(st.Addr, fn.Params[1]) {
+			shared = true
+		}
+	}
+	c.Check("C10.IDENT", fk+":shares-manager", fn.Pos(), shared, "the updated cluster takes over the old cluster's resource manager object", "after a cluster update the new cluster no longer shares the old cluster's resource manager: requests admitted before the update are released on another object than the one that counts them, so counters never return to zero")
+	// it is invoked on every cluster update path
+	n := 0
+	for _, f := range c.PkgFuncs(pkg) {
+		n += len(callsIn(f, true, func(cc *ssa.CallCommon) bool { return cc.StaticCallee() == fn }))
+	}
+	c.Check("C10.IDENT", fk+":called-on-update", fn.Pos(), n >= 2, fmt.Sprintf("%d update paths call the handler", n), "cluster update paths no longer call UpdateClusterResourceManagerHandler")
+	// nobody overwrites a live counter
+	bad := []string{}
+	for _, p := range c10Pkgs {
+		for _, f := range c.PkgFuncs(p) {
+			for range callsIn(f, true, func(cc *ssa.CallCommon) bool { return methodName(cc) == "UpdateCur" }) {
+				bad = append(bad, funcKey(f))
+			}
+		}
+	}
+	c.Check("C10.IDENT", "pkg/upstream/cluster.resource.UpdateCur:no-production-caller", token.NoPos, len(bad) == 0, "no production code overwrites a live counter (UpdateCur)", "a live counter is overwritten (UpdateCur) by "+strings.Join(bad, ",")+": concurrent Increase/Decrease are lost")
+}
+
+// rootsAtParam: following receivers/loads/field addresses/type asserts backwards from v reaches parameter p.
+func rootsAtParam(v ssa.Value, p *ssa.Parameter) bool {
+	for i := 0; i < 24; i++ {
+		switch x := v.(type) {
+		case *ssa.Parameter:
+			return x == p
+		case *ssa.Call:
+			if rv := recvOf(x.Common()); rv != nil {
+				v = rv
+				continue
+			}
+			return false
+		case *ssa.FieldAddr:
+			v = x.X
+		case *ssa.UnOp:
+			v = x.X
+		case *ssa.TypeAssert:
+			v = x.X
+		case *ssa.Extract:
+			v = x.Tuple
+		case *ssa.ChangeInterface:
+			v = x.X
+		case *ssa.MakeInterface:
+			v = x.X
+		case *ssa.Phi:
+			return false
+		default:
+			return false
+		}
+	}
+	return false
 }
